@@ -18,6 +18,8 @@ type specOpts struct {
 	honestFrag  bool // only generate fragmenting MTUs whose part count fits the header field
 	errClose    bool // sometimes put a transport beneath whose Close reports an error
 	smallQueues bool // include very short receive queues (buffers are recycled after a few messages)
+	transform   bool // the in-memory realm may carry a (pass-through) tell transform
+	twoSchemes  bool // a multi-transport layer may have two schemes with different MTUs
 }
 
 var muxKinds = []string{"string", "uint16", "uint32", "uint64", "varint"}
@@ -69,6 +71,9 @@ func genSpec(t *rapid.T, o specOpts) stack.Spec {
 			qs = []int{4096, 256, 16, 4, 2}
 		}
 		s.QueueLen = rapid.SampledFrom(qs).Draw(t, "queueLen")
+		if o.transform {
+			s.Transform = rapid.IntRange(0, 2).Draw(t, "tellTransform") == 0
+		}
 		cur = s.BaseMTU
 		hasAsk, hasSec = true, true
 	}
@@ -142,6 +147,11 @@ func genSpec(t *rapid.T, o specOpts) stack.Spec {
 			hasSec = false
 		case "multi":
 			l.Name = rapid.StringMatching(`[a-z][a-z0-9]{0,5}`).Draw(t, "scheme")
+			if o.twoSchemes && !o.needAsk && cur >= 4 && rapid.Bool().Draw(t, "twoSchemes") {
+				l.N = 2 // the multi-transport swarm then reports the smaller of two MTUs
+				cur /= 2
+				hasAsk, hasSec = false, false
+			}
 			if !(hasAsk && hasSec) {
 				hasAsk, hasSec = false, false
 			}
